@@ -372,16 +372,18 @@ class Tie:
         return errs
 
 
-def ddmin_case(case_ops, fails):
-    """remove operations (never the first line) while `fails` still holds"""
+def ddmin_case(case_ops, fails, stop=None):
+    """remove operations (never the first line) while `fails` still holds; `stop()` ends the search early
+    (what has been removed so far stays removed)"""
     ops = list(case_ops)
     n = 2
     budget = 400
-    while len(ops) > 2 and budget > 0:
+    stop = stop or (lambda: False)
+    while len(ops) > 2 and budget > 0 and not stop():
         chunk = max(1, (len(ops) - 1) // n)
         removed = False
         i = 1
-        while i < len(ops) and budget > 0:
+        while i < len(ops) and budget > 0 and not stop():
             cand = ops[:i] + ops[i + chunk:]
             budget -= 1
             if len(cand) >= 1 and fails(cand):
